@@ -193,12 +193,17 @@ def cases(tier, seed):
         for tv in tvecs:
             for (kind, split) in kinds:
                 j += 1
-                if tier == "quick" and (j % 3) and kind not in ("num",):
+                # (thinning and the secondary dimensions go by a hash of the
+                # case, so that none is in lock-step with another)
+                hk = [list(shp), "".join(tv), kind, split]
+                if tier == "quick" and core.pick(hk + ["thin"], 3) and \
+                        kind not in ("num",):
                     continue
-                flat = (j % 4 == 0)
-                spelling = ["dict", "tuple", "pair"][j % 3] if k == 1 \
-                    else ["dict", "tuple"][j % 2]
-                nconst = j % 3
+                flat = core.pick(hk + ["flat"], 4) == 0
+                spelling = ["dict", "tuple", "pair"][
+                    core.pick(hk + ["sp"], 3)] if k == 1 \
+                    else ["dict", "tuple"][core.pick(hk + ["sp"], 2)]
+                nconst = core.pick(hk + ["nc"], 3)
                 base = {"shape": list(shp), "types": "".join(tv), "kind": kind,
                         "split": split, "flat": flat, "spelling": spelling,
                         "nconst": nconst}
@@ -206,8 +211,10 @@ def cases(tier, seed):
                 if j % 2 and kind != "tstr":
                     # the values of each argument given as a tuple, a
                     # one-shot generator or a numpy array
-                    yield dict(base, strat=["seq", "shuffle"][j % 4 // 2],
-                               seed=2, valform=["tuple", "gen", "array"][j % 3])
+                    yield dict(base, strat=["seq", "shuffle"][
+                        core.pick(hk + ["vs"], 2)], seed=2,
+                        valform=["tuple", "gen", "array"][
+                            core.pick(hk + ["vf"], 3)])
                 if kind == "str" and "i" in tv:
                     # the same sweep right after one over ==-equal values of
                     # other types (non-initial state of the process)
